@@ -8,7 +8,8 @@
    [axis_msgs g raw] is what the model (bit-exact float64, Model/AnalogF.v) transmits. *)
 From Coq Require Import List NArith ZArith Bool.
 From Coq Require Import Reals.
-From HIDI Require Import Base.AList Model.Device Model.AnalogF Model.AnalogSpec Proofs.AnalogGrid Proofs.AnalogProofs Proofs.AnalogEndstop.
+From HIDI Require Import Base.AList Model.Device Model.AnalogF Model.AnalogSpec Proofs.AnalogGrid Proofs.AnalogProofs Proofs.AnalogEndstop
+  Proofs.AnalogGeneral Proofs.AnalogGeneral2.
 Import ListNotations.
 
 (* Every raw value of the 8-bit axes [0,255], [-128,127], [-127,127] and of a hat [-1,1], for each of the 20 deadzones of
@@ -92,3 +93,100 @@ Theorem C06_minus_one_is_full_scale :
   cc_encode true true fm1 = (true, 127%N) /\ cc_encode true false fm1 = (false, 0%N) /\ pb_bytes true fm1 = (0%N, 0%N).
 Proof. exact transmit_minus_one. Qed.
 Print Assumptions C06_minus_one_is_full_scale.
+
+(* ==== General theorems (no grid, no evaluation): range, monotonicity, accuracy and encoding for EVERY configuration of the domain
+     [axis_dom mn mx dzc] : -2^31 <= mn <= 0 < mx < 2^31, and deadzone_at_center only on an axis with minimum 0;
+     [dz_dom dz]          : the deadzone is a finite float with 0 <= dz <= 1 - 2^-10 (as a real number);
+     raw                  : any integer of the axis range.
+   Proved from Flocq's real-number semantics of binary64 (each operation = the exact operation rounded to nearest even; rounding
+   is monotone, symmetric, the identity on representable numbers and moves |x| <= 2^e by at most 2^(e-53)).
+   The deadzone bound 1 - 2^-10 makes the divisor 1 - dz at least 2^-10, so that the division amplifies the (at most 5 * 2^-53)
+   error of the normalised position by at most 2^10; any bound 1 - 2^-k, k <= 30, would do with the accuracy 2^(k-49). *)
+From Flocq Require Import Core.Core.
+
+Example C06_general_domain_inhabited :
+  axis_dom (-32768) 32767 false /\ axis_dom 0 255 true /\ axis_dom (- 2 ^ 31) (2 ^ 31 - 1) false /\
+  dz_dom f0 /\ dz_dom (f_of_bits 4587366580439587226) (* 0.05 *).
+Proof. exact (conj (proj1 dom_examples) (conj (proj1 (proj2 dom_examples)) (conj (proj2 (proj2 dom_examples)) (conj f0_dom dz005_dom)))). Qed.
+
+(* 1. the shaped position is a finite float in [-1, 1] (never NaN / infinite / out of range) ... *)
+Theorem C06_general_range : forall mn mx dzc dz raw,
+  axis_dom mn mx dzc -> dz_dom dz -> (mn <= raw <= mx)%Z ->
+  B.is_finite (fst (shape mn mx dzc dz raw)) = true /\ (-1 <= B.B2R (fst (shape mn mx dzc dz raw)) <= 1)%R.
+Proof. exact shape_finite_range. Qed.
+Print Assumptions C06_general_range.
+
+(* ... and in [0, 1] on an unsigned axis without deadzone_at_center *)
+Theorem C06_general_range_unsigned : forall mx dz raw,
+  axis_dom 0 mx false -> dz_dom dz -> (0 <= raw <= mx)%Z ->
+  (0 <= B.B2R (fst (shape 0 mx false dz raw)) <= 1)%R.
+Proof. exact shape_unsigned_nonneg. Qed.
+Print Assumptions C06_general_range_unsigned.
+
+(* 2. the shaped position is monotone in the raw position *)
+Theorem C06_general_monotone : forall mn mx dzc dz r1 r2,
+  axis_dom mn mx dzc -> dz_dom dz -> (mn <= r1)%Z -> (r1 <= r2)%Z -> (r2 <= mx)%Z ->
+  (B.B2R (fst (shape mn mx dzc dz r1)) <= B.B2R (fst (shape mn mx dzc dz r2)))%R.
+Proof. exact shape_monotone. Qed.
+Print Assumptions C06_general_monotone.
+
+(* 3. the shaped position is within 2^-39 of the exact real transfer function [shape_R] (the formula of [exact_position]
+      over the real numbers: raw / |min| or raw / |max|, re-centred by v * 2 - 1, deadzone cut out and rescaled by 1 - dz) *)
+Theorem C06_general_accuracy : forall mn mx dzc dz raw,
+  axis_dom mn mx dzc -> dz_dom dz -> (mn <= raw <= mx)%Z ->
+  (Rabs (B.B2R (fst (shape mn mx dzc dz raw)) - shape_R mn mx dzc (B.B2R dz) raw) <= bpow radix2 (-39))%R.
+Proof. exact shape_accuracy. Qed.
+Print Assumptions C06_general_accuracy.
+
+(* 4. the encoders on ANY finite float of the shaped range: the controller byte is floor(round_binary64(127 * a)), lies in
+      [0, 127] and is within 1 + 2^-46 of 127 * a; the pitch-bend value is nearest(round_binary64(16383 * ((w + 1) / 2))), lies in
+      [0, 16383] and is within 1/2 + 2^-37 of the exact value *)
+Theorem C06_general_encoding_cc : forall a, B.is_finite a = true -> (0 <= B.B2R a <= 1)%R ->
+  Z.of_N (cc_byte a) = Zfloor (rnd (127 * B.B2R a)) /\ (0 <= Z.of_N (cc_byte a) <= 127)%Z /\
+  (Rabs (IZR (Z.of_N (cc_byte a)) - 127 * B.B2R a) <= 1 + bpow radix2 (-46))%R.
+Proof. exact cc_byte_general. Qed.
+Print Assumptions C06_general_encoding_cc.
+
+Theorem C06_general_encoding_pb : forall w, B.is_finite w = true -> (-1 <= B.B2R w <= 1)%R ->
+  pb_target true w = ZnearestA (rnd (16383 * rnd (rnd (B.B2R w + 1) / 2))) /\ (0 <= pb_target true w <= 16383)%Z /\
+  (Rabs (IZR (pb_target true w) - 16383 * ((B.B2R w + 1) / 2)) <= / 2 + bpow radix2 (-37))%R.
+Proof. exact pb_target_general. Qed.
+Print Assumptions C06_general_encoding_pb.
+
+(* every form of [cc_encode] / [pb_target] ([tx_int]: unidirectional unsigned / signed, either side of a pair, pitch bend) on a
+   finite v of the range ([-1,1] if the axis can go negative, else [0,1]) that is within d <= 2^-38 of a real p: the transmitted
+   integer is in the MIDI range and within 1 + 2^-23 of the exact scaled value of p *)
+Theorem C06_general_encoding : forall k canneg v p d,
+  B.is_finite v = true -> in_range canneg (B.B2R v) -> (0 <= d <= 32768 * u)%R -> (Rabs (B.B2R v - p) <= d)%R ->
+  (0 <= tx_int k canneg v <= full k)%Z /\
+  (Rabs (IZR (tx_int k canneg v) - scaled_R k canneg p) <= 1 + bpow radix2 (-23))%R.
+Proof. exact encoding_general. Qed.
+Print Assumptions C06_general_encoding.
+
+(* [tx_int] is what [make_sample] hands to the device model: the controller value byte and the two pitch-bend data bytes *)
+Theorem C06_general_sample : forall code a canneg v,
+  Z.of_N (sa_ccv (make_sample code a canneg v)) = tx_int (if a_bidi a then KCCbidi else KCCuni) canneg v /\
+  ((0 <= tx_int KPB canneg v <= 16383)%Z ->
+   (Z.of_N (sa_lsb (make_sample code a canneg v)) + 128 * Z.of_N (sa_msb (make_sample code a canneg v))
+    = tx_int KPB canneg v)%Z).
+Proof. exact make_sample_tx. Qed.
+Print Assumptions C06_general_sample.
+
+(* 5. end to end, for the whole domain, each kind of output k, with and without flip: the transmitted integer
+      [transmitted] = tx_int on the flipped shaped value lies in [0, 127] resp. [0, 16383] and is within 1 + 2^-20 of the exact
+      real value on the MIDI scale [exact_R] ([exact_scaled] of [exact_position] over the real numbers) ... *)
+Theorem C06_general : forall k flip mn mx dzc dz raw,
+  axis_dom mn mx dzc -> dz_dom dz -> (mn <= raw <= mx)%Z ->
+  (0 <= transmitted k flip mn mx dzc dz raw <= full k)%Z /\
+  (Rabs (IZR (transmitted k flip mn mx dzc dz raw) - exact_R k flip mn mx dzc (B.B2R dz) raw) <= 1 + bpow radix2 (-20))%R.
+Proof. exact c06_general. Qed.
+Print Assumptions C06_general.
+
+(* ... and the transmitted value (a value on the negative controller of a pair counted negative) is monotone in the raw position,
+   reversed by flip *)
+Theorem C06_general_tx_monotone : forall k (flip : bool) mn mx dzc dz r1 r2,
+  axis_dom mn mx dzc -> dz_dom dz -> (mn <= r1)%Z -> (r1 <= r2)%Z -> (r2 <= mx)%Z ->
+  if flip then (transmitted_signed k flip mn mx dzc dz r2 <= transmitted_signed k flip mn mx dzc dz r1)%Z
+  else (transmitted_signed k flip mn mx dzc dz r1 <= transmitted_signed k flip mn mx dzc dz r2)%Z.
+Proof. exact c06_general_monotone. Qed.
+Print Assumptions C06_general_tx_monotone.
